@@ -155,6 +155,8 @@ impl Cache {
             proc.state = p.state().into();
             // the env can be changed by the scripts after the process is started
             proc.env = p.env().to_string();
+            // the error of the process is set when the workflow task fails
+            proc.err = p.err().map(|err| err.to_string());
 
             collection.update(&proc)?;
             self.store.upsert_task(task)?;
